@@ -591,6 +591,12 @@ package statedb
 //@   ensures @root-mutex-untouched unchanged(GH_held)
 //@   ensures @holds-exactly-its-table-locks ptrto(writeTxnHandle, unboxptr(result)).writeTxnState != nil && GH_smus[ptrto(writeTxnHandle, unboxptr(result)).writeTxnState.smus] && unchangedExcept(GH_smus, ptrto(writeTxnHandle, unboxptr(result)).writeTxnState.smus)
 //@   ensureslocal @holds-table-locks GH_smus[txn.smus] && !GH_held[addr(db.mu)]
+//@   atstore tableEntry requires @only-private-entry-copies-are-written fresh($p)
+//@   ensureslocal @works-on-a-private-copy-of-the-root (fresh(arr(txn.tableEntries)) || cap(txn.tableEntries) == 0) && len(txn.tableEntries) == len(*txn.oldRoot)
+//@   loop 2 invariant @root-copy-kept fresh(arr(txn.tableEntries)) || cap(txn.tableEntries) == 0
+//@   loop 2 invariant @root-copy-length len(txn.tableEntries) == len(*txn.oldRoot)
+//@   loop 2 invariant @locked-tables-get-private-entries-and-index-slices forall j int :: 0 <= j && j < $i && 0 <= tposOf(tables[j]) && tposOf(tables[j]) < len(txn.tableEntries) ==> (let e = txn.tableEntries[tposOf(tables[j])] in fresh(e) && e.locked && (fresh(arr(e.indexes)) || cap(e.indexes) == 0))
+//@   ensureslocal @every-locked-table-has-a-private-entry-and-index-slice forall j int :: 0 <= j && j < len(tables) && 0 <= tposOf(tables[j]) && tposOf(tables[j]) < len(txn.tableEntries) ==> (let e = txn.tableEntries[tposOf(tables[j])] in fresh(e) && e.locked && (fresh(arr(e.indexes)) || cap(e.indexes) == 0))
 
 // ---------------------------------------------------------------------------
 // WatchSet.Wait (C20): what is returned was a member and is closed; exactly the returned
